@@ -241,6 +241,11 @@ pub fn text_pairs(rng: &mut Rng, thorough: bool, with_invalid: bool) -> Vec<(Vec
         let b = textgen::mutate_lines(rng, &a, e, 5);
         v.push((a.into_bytes(), b.into_bytes()));
     }
+    // more than 100 tokens (TextDiff's interning branch), runs of repeated tokens, few edits
+    for _ in 0..(if thorough { 600 } else { 60 }) {
+        let (a, b) = textgen::runny_pair(rng);
+        v.push((a.into_bytes(), b.into_bytes()));
+    }
     v
 }
 
